@@ -515,6 +515,10 @@ class JunctionCompartment(Compartment):
         # Next, get the total outflow. Note that the parameters are guaranteed to be in proportion units here
         outflow_fractions = [link.parameter.vals[ti] for link in self.outlinks]
         total_outflow = sum(outflow_fractions)
+        if total_outflow == 0 and not np.any(net_inflow):
+            # Nobody is entering the junction so nobody leaves it - avoid 0/0 if all of the proportions are zero. (If people do enter
+            # a junction whose proportions are all zero the model is ill-posed, and the NaN flows are kept to flag that)
+            total_outflow = 1
 
         # Finally, assign the inflow to the outflow proportionately accounting for the total outflow downscaling
         for frac, link in zip(outflow_fractions, self.outlinks):
